@@ -2,36 +2,70 @@
    Only statements; proofs are `exact <lemma of GC/GCProofs.v>`.
 
    Reach kc bits progs s = "s is reachable from the initial state of the client programs `progs` (thread i owns
-   accessor i; queue capacity 2^bits) under SOME schedule of the client threads and the collector thread", for the
-   machine whose keep_reclaim loop condition is kc:  src_kc = the condition regenerated from the current source,
-   fixed_kc = `running || index < tasks.size()` (the proposed repair).  Theorems stated for every kc hold for both.
+   accessor i; queue capacity 2^bits) under SOME schedule of the client threads and the collector thread" of the
+   machine whose keep_reclaim loop condition is kc:
+     src_kc   = the condition regenerated from the current source (Gen_garbage_collector.keep_looping),
+     fixed_kc = `running || index < tasks.size()` (the proposed repair).
+   Theorems quantified over kc hold for both.  So every theorem is quantified over all programs, thread counts,
+   capacities, batch boundaries and schedules (incl. every phase of the collector's poll/back-off loop).
+   A reclaimer is identified by the queue ticket its retire() call took (one fetch_add per call,
+   c10_ticket_identifies_the_call); calls s = reclaimer calls so far, in order.
 
-   STATUS of the property text:
-     * "invoked ... only after all critical regions that were open when it was retired have closed": c10_never_early
-       (all kc, all programs, all schedules, all capacities).
-     * "retiring blocks while the queue is full and resumes afterwards": c10_retire_blocks_iff_queue_full,
-       c10_queue_never_over_capacity, c10_blocked_retire_resumes.
-     * "no later than the return of stop()": FALSE of the current source - c10_all_before_stop_refuted (finding F2:
-       stop() while a region is open; 18-step witness, replayed on the real code by checks/c10.py case d.f2), and
-       c10_retire_racing_stop_refuted (a retire() overlapping stop() is discarded behind the marker).
-   AFTER the fix `while (running || index < tasks.size())` is committed: c10_all_before_stop_refuted stops
-   compiling (its witness no longer runs that way); delete it - see the note at the end of this file. *)
-From Coq Require Import ZArith List Bool.
+   STATUS against the property text
+     "invoked exactly once"            at most once: c10_at_most_once (+ ticket order = FIFO);  at least once is the
+                                       stop clause below.
+     "only after all regions open when it was retired have closed"      c10_never_early.
+     "blocks while the queue is full and resumes without losing tasks"  c10_retire_blocks_iff_queue_full,
+                                       c10_queue_never_over_capacity, c10_blocked_retire_resumes, c10_no_task_lost.
+     "no later than the return of stop() / the destructor"
+          FALSE of the current source: c10_all_before_stop_refuted (finding F2, stop() while a region is open;
+          18-step witness, replayed on the real code by checks/c10.py case d.f2) and
+          c10_retire_racing_stop_refuted (a retire() overlapping stop() is discarded behind the marker).
+          TRUE of the repaired loop for every task that is not queued behind an earlier stop marker:
+          c10_all_before_stop_returns_fixed_loop, and of ANY loop condition of that form:
+          c10_all_before_stop_returns_if_loop_waits (this is what becomes applicable to src_kc after the fix).
+   Not proved: liveness (stop() eventually returns) - only searched for by the scheduler runs / model exploration.
+
+   AFTER the fix `while (running || index < tasks.size())` is committed in /repo only gc_all_before_stop_refuted
+   stops compiling.  Then: (1) delete gc_all_before_stop_refuted from GC/GCProofs.v and
+   c10_all_before_stop_refuted from this file; (2) append to GC/GCProofs.v
+       Lemma src_kc_is_fixed : forall r i n, src_kc r i n = r || Nat.ltb i n.
+       Proof. destruct src_kc_form as [H|H]; [specialize (H false 0%nat 1%nat); vm_compute in H; discriminate | exact H]. Qed.
+       Theorem gc_all_before_stop_src : forall bits progs s, Reach src_kc bits progs s -> stop_complete s.
+       Proof. exact (gc_all_before_stop src_kc src_kc_is_fixed). Qed.
+   and to this file
+       Theorem c10_all_before_stop_returns : forall bits progs s, Reach src_kc bits progs s -> stop_complete s.
+       Proof. exact gc_all_before_stop_src. Qed.
+   (3) turn the first C10 `finding:` line of KNOWN_FINDINGS.txt into a `fixed:` line.  (Tested against a patched copy.) *)
+From Coq Require Import ZArith List Bool Sorted.
 Require Import Verif.Gen.Gen_garbage_collector Verif.Conc.Machine Verif.GC.GCModel Verif.GC.GCProofs.
 Import ListNotations.
 Local Open Scope Z_scope.
 
-(* `early` is set by the model at a reclaimer call iff some region (slot, generation) that was open at the tick of the
-   task's retire() is still open at the call *)
-Theorem c10_never_early : forall bits progs s, Reach src_kc bits progs s -> early s = false.
-Proof. exact (gc_never_early src_kc). Qed.
+(* ---- exactly once, part 1: never twice; calls happen in ticket (FIFO) order and each called task is the one
+   published under its ticket *)
+Theorem c10_at_most_once : forall kc bits progs s, Reach kc bits progs s ->
+  StronglySorted Nat.lt (map tk_ticket (map fst (calls s))) /\
+  forall x, In x (map fst (calls s)) -> nth_error (qall s) (tk_ticket x) = Some (Some x).
+Proof. exact gc_at_most_once. Qed.
+Print Assumptions c10_at_most_once.
+
+Theorem c10_no_ticket_called_twice : forall kc bits progs s, Reach kc bits progs s -> NoDup (map tk_ticket (map fst (calls s))).
+Proof. exact gc_calls_nodup. Qed.
+Print Assumptions c10_no_ticket_called_twice.
+
+Theorem c10_ticket_identifies_the_call : forall kc bits progs s, Reach kc bits progs s ->
+  forall j x, nth_error (qall s) j = Some (Some x) -> tk_ticket x = j.
+Proof. exact gc_ticket_is_position. Qed.
+Print Assumptions c10_ticket_identifies_the_call.
+
+(* ---- never early.  `early` is set by the model at a reclaimer call iff some region (slot, generation) that was open
+   at the tick of the task's retire() is still open at the call; low_water_mark() is a slot-by-slot scan *)
+Theorem c10_never_early : forall kc bits progs s, Reach kc bits progs s -> early s = false.
+Proof. exact gc_never_early. Qed.
 Print Assumptions c10_never_early.
 
-Theorem c10_never_early_any_loop : forall kc bits progs s, Reach kc bits progs s -> early s = false.
-Proof. exact gc_never_early. Qed.
-Print Assumptions c10_never_early_any_loop.
-
-(* a thread inside retire()/stop() that holds ticket k cannot move exactly while k >= popped + capacity *)
+(* ---- bounded queue.  A thread inside retire()/stop() holding ticket k cannot move exactly while k >= popped + capacity *)
 Theorem c10_retire_blocks_iff_queue_full : forall kc s t th x b,
   nth_error (threads s) t = Some th -> tpc th = PPublish x b ->
   (gstep kc s t = None <-> (qhead s + cap s <= tk_ticket x)%nat).
@@ -50,7 +84,31 @@ Theorem c10_blocked_retire_resumes : forall kc s t th x b sch,
 Proof. exact gc_resumes. Qed.
 Print Assumptions c10_blocked_retire_resumes.
 
-(* FINDING F2: the current source lets stop() return with an uncalled reclaimer *)
+(* every popped ticket was published, and its task has been called, is pending in the collector's vector, or was
+   discarded (gone: stop markers, tasks behind a marker in the same chunk, tasks pending when the loop exited) *)
+Theorem c10_no_task_lost : forall kc bits progs s, Reach kc bits progs s ->
+  forall j, (j < qhead s)%nat -> exists x, nth_error (qall s) j = Some (Some x) /\
+    (In x (map fst (calls s)) \/ In x (skipn (cpos (col s)) (ctasks (col s))) \/ In x (gone s)).
+Proof. exact gc_no_task_lost. Qed.
+Print Assumptions c10_no_task_lost.
+
+(* ---- stop().  stop_complete s: for every stop() that has returned after joining the collector, every task queued in
+   front of its marker and not behind an earlier marker has been called *)
+Theorem c10_all_before_stop_returns_if_loop_waits : forall kc, (forall r i n, kc r i n = r || Nat.ltb i n) ->
+  forall bits progs s, Reach kc bits progs s -> stop_complete s.
+Proof. exact gc_all_before_stop. Qed.
+Print Assumptions c10_all_before_stop_returns_if_loop_waits.
+
+Theorem c10_all_before_stop_returns_fixed_loop : forall bits progs s, Reach fixed_kc bits progs s -> stop_complete s.
+Proof. exact gc_all_before_stop_fixed_loop. Qed.
+Print Assumptions c10_all_before_stop_returns_fixed_loop.
+
+(* the regenerated loop condition is one of the two forms *)
+Theorem c10_source_loop_form : (forall r i n, src_kc r i n = r) \/ (forall r i n, src_kc r i n = r || Nat.ltb i n).
+Proof. exact src_kc_form. Qed.
+Print Assumptions c10_source_loop_form.
+
+(* FINDING F2: the current source lets stop() return with an uncalled reclaimer (single stop, region closed later) *)
 Theorem c10_all_before_stop_refuted :
   exists bits progs s, single_stop progs /\ Reach src_kc bits progs s /\ gver s < STOP_EPOCH /\ all_done s = true /\
                        ~ stop_complete s.
@@ -63,3 +121,11 @@ Theorem c10_retire_racing_stop_refuted :
     In (Some x) (qall s) /\ is_marker x = false /\ ~ In x (map fst (calls s)) /\ In x (gone s).
 Proof. exact gc_retire_racing_stop_refuted. Qed.
 Print Assumptions c10_retire_racing_stop_refuted.
+
+(* ---- non-vacuity *)
+Example c10_stop_waits_example : exists s, Reach fixed_kc 1 f2_progs s /\ all_done s = true /\ length (calls s) = 1%nat /\
+  exists th, nth_error (threads s) 0 = Some th /\ In (RStop true 1 1) (results th).
+Proof. exact fixed_example. Qed.
+Example c10_blocked_example : exists s t th x b, Reach src_kc 0 [[ORetire; ORetire]] s /\ nth_error (threads s) t = Some th /\
+  tpc th = PPublish x b /\ step s t = None.
+Proof. exact blocked_example. Qed.
